@@ -15,7 +15,7 @@ import traceback
 
 VERIF = os.path.dirname(os.path.dirname(os.path.abspath(__file__)))
 OUT = os.environ.get("VERIF_OUT") or VERIF  # where replays/ and evidence/ are written (scratch runs set VERIF_OUT)
-RUN_TIMEOUT = 240
+RUN_TIMEOUT = 600  # backstop only; typical runs take well under a second, the slowest seen ~20 s uncontended
 
 
 def _child_main(wfd, profile, seed, ops, cfg, stop_props, mode):
